@@ -227,6 +227,54 @@ class Evaluator:
                 self._add(acc, s, v)
         return acc
 
+    def visible(self, p: Ent, e: Ent):
+        """Whether consumer e sees producer p on a shared network (always, in the real circuit; the ideal-isolation
+        evaluator of the e2e judge restricts it to the compiler's own signal graph)."""
+        return True
+
+    def may_emit(self, p: Ent):
+        """The signal names an entity can put on a wire, or None when that depends on its input (each / everything
+        outputs).  Used to read ONE named signal without evaluating producers that cannot emit it: a combinator whose
+        output sits on its own input network under another name is not a feedback loop."""
+        if p.kind == "const":
+            return {s for s, _ in self.c.const_signals(p)}
+        if p.kind == "pole":
+            return set()
+        if p.kind == "other":
+            return set(self.free_outputs.get(p.num, {}))
+        if p.kind == "arith":
+            osig = (p.cb.get("arithmetic_conditions", {}) or {}).get("output_signal")
+            if osig is None:
+                return set()
+            return None if osig["name"] in WILDCARDS else {osig["name"]}
+        if p.kind == "decider":
+            names = set()
+            for o in (p.cb.get("decider_conditions", {}) or {}).get("outputs", []) or []:
+                n = (o.get("signal") or {}).get("name")
+                if n is None or n in WILDCARDS:
+                    return None
+                names.add(n)
+            return names
+        return None
+
+    def read_signal(self, e: Ent, sel, name):
+        """The value of ONE named signal on the selected input colours of e (0 when nobody emits it)."""
+        total = None
+        for colour in ("red", "green"):
+            if not sel[colour]:
+                continue
+            n = self.c.net(e.num, self.c.in_conn(e, colour))
+            for p in self.c.producers(n):
+                if not self.visible(p, e):
+                    continue
+                me = self.may_emit(p)
+                if me is not None and name not in me:
+                    continue
+                v = self.emitted(p).get(name)
+                if v is not None:
+                    total = v if total is None else self.B.arith("+", total, v)
+        return total if total is not None else self.B.const(0)
+
     def read(self, e: Ent, sel):
         """Input of a combinator/entity under a network selection: sum of the selected colours."""
         acc = {}
@@ -290,6 +338,13 @@ class Evaluator:
             return {}
         sel1 = _nets_sel(ac.get("first_signal_networks"))
         sel2 = _nets_sel(ac.get("second_signal_networks"))
+        fname = fs["name"] if fs else None
+        sname = ss["name"] if ss else None
+        if osig["name"] not in WILDCARDS and fname not in WILDCARDS and sname not in WILDCARDS:
+            # scalar arithmetic: each operand is ONE named signal (producers that cannot emit it are not evaluated)
+            a = self.read_signal(e, sel1, fname) if fs else B.const(ac.get("first_constant") if ac.get("first_constant") is not None else 0)
+            b = self.read_signal(e, sel2, sname) if ss else B.const(ac.get("second_constant") if ac.get("second_constant") is not None else 0)
+            return {osig["name"]: B.arith(op, a, b)}
         in1 = self.read(e, sel1) if fs else {}
         in2 = self.read(e, sel2) if ss else {}
 
@@ -298,8 +353,6 @@ class Evaluator:
                 return inp.get(sig["name"], B.const(0))
             return B.const(const if const is not None else 0)
 
-        fname = fs["name"] if fs else None
-        sname = ss["name"] if ss else None
         if fname == "signal-each" or sname == "signal-each":
             if fname == "signal-each" and sname == "signal-each":
                 raise Unsupported("each on both operands")
@@ -325,6 +378,34 @@ class Evaluator:
         b = operand(ss, ac.get("second_constant"), in2)
         return {osig["name"]: B.arith(op, a, b)}
 
+    def _plain_decider(self, e: Ent, conds, outs):
+        """A decider without wildcards: every operand and every copied output is ONE named signal, read lazily
+        (same semantics as the general case below: rows grouped by AND binding tighter than OR)."""
+        B = self.B
+        groups, cur = [], None
+        for i, c in enumerate(conds):
+            fs, ss = c.get("first_signal"), c.get("second_signal")
+            first = self.read_signal(e, _nets_sel(c.get("first_signal_networks")), fs["name"]) if fs else B.const(0)
+            second = self.read_signal(e, _nets_sel(c.get("second_signal_networks")), ss["name"]) if ss else B.const(c.get("constant", 0) or 0)
+            t = B.cmp(c.get("comparator", "<"), first, second)
+            if i == 0 or c.get("compare_type", "or") != "and":
+                if cur is not None:
+                    groups.append(cur)
+                cur = [t]
+            else:
+                cur.append(t)
+        groups.append(cur)
+        truth = B.or_(*[B.and_(*g) for g in groups])
+        out = {}
+        for o in outs:
+            osig = o["signal"]["name"]
+            if o.get("copy_count_from_input", True):
+                val = self.read_signal(e, _nets_sel(o.get("networks")), osig)
+            else:
+                val = B.const(o.get("constant", 1))
+            self._add(out, osig, B.ite(truth, val, B.const(0)))
+        return out
+
     # ---------- decider combinator
     def _decider(self, e: Ent):
         B = self.B
@@ -336,6 +417,9 @@ class Evaluator:
         rows = []
         uses_each = False
         all_inputs = {}
+        names = [((c.get(k) or {}).get("name")) for c in conds for k in ("first_signal", "second_signal")] + [((o.get("signal") or {}).get("name")) for o in outs]
+        if not any(n in WILDCARDS for n in names if n):
+            return self._plain_decider(e, conds, outs)
         for c in conds:
             fs, ss = c.get("first_signal"), c.get("second_signal")
             sel1 = _nets_sel(c.get("first_signal_networks"))
